@@ -2,7 +2,12 @@
 
 Input: JSON list of cases (see harness/props/c11.py gen_cases).  Output: one record per case with everything the
 real code returned; values under a mask are reported as 0 (numpy leaves garbage there), masks separately; an
-unmasked non-finite value is reported as the string 'NF'."""
+unmasked non-finite value is reported as the string 'NF'.
+
+Cases of the stream 'containers' carry a list 'variants' (harness/props/c11_types.py): the same numbers and masks built
+as another container type (build_container) and / or with given raw values stored under the masked entries; every
+entry point is called on every variant (eval_calls) and on the canonical float64 C-ordered dadi.Spectrum pair
+(reference_record; masks dropped on a side whose container carries no mask)."""
 import sys, json, math, warnings, logging
 warnings.filterwarnings('ignore')
 import numpy as np
@@ -42,6 +47,147 @@ def guarded(rec, key, f):
         rec[key] = f()
     except Exception as e:
         rec[key] = {'error': type(e).__name__ + ': ' + str(e)[:200]}
+
+# ------------------------------------------------------------------------------------------------
+# argument types and hidden content (stream 'containers'): the same (model, data) handed over in every container the
+# API accepts, with arbitrary raw content stored under masked entries
+
+SPECIAL = {'nan': float('nan'), 'inf': float('inf'), '-inf': float('-inf')}
+
+def _num(x):
+    return SPECIAL[x] if isinstance(x, str) else x
+
+def _strided(arr, fill):
+    """a non-contiguous view holding arr: every second entry along every axis of a larger array"""
+    big = np.full(tuple(2 * s for s in arr.shape), fill, dtype=arr.dtype)
+    sl = tuple(slice(None, None, 2) for _ in arr.shape)
+    big[sl] = arr
+    return big, sl
+
+def build_container(kind, vals, mask, hidden, shape, folded):
+    """kind: container name; vals/mask: flat lists; hidden: None (keep vals) or flat list of raw values to store
+    under the masked entries; returns the object handed to the likelihood functions."""
+    raw = [(_num(h) if (mk and hidden is not None) else v) for v, mk, h in zip(vals, mask, hidden if hidden is not None else vals)]
+    isint = kind.endswith('_int') or kind.endswith('_int32')
+    if isint:
+        base = np.array([int(x) for x in raw], dtype=np.int32 if kind.endswith('_int32') else np.int64).reshape(shape)
+    elif kind.endswith('_f32'):
+        base = np.array(raw, dtype=np.float32).reshape(shape)
+    else:
+        base = np.array(raw, dtype=float).reshape(shape)
+    mk = np.array(mask, dtype=bool).reshape(shape)
+    fam = kind.split('_')[0]
+    layout = 'F' if '_F' in kind else 'view' if '_view' in kind else 'C'
+    if fam == 'spectrum':
+        kw = dict(mask_corners=False, data_folded=bool(folded), check_folding=False)
+        if isint or kind.endswith('_f32'):
+            kw['dtype'] = base.dtype                       # Spectrum(...) converts to float64 unless told otherwise
+        if layout == 'F':
+            return dadi.Spectrum(np.asfortranarray(base), mask=np.asfortranarray(mk), **kw)
+        if layout == 'view':
+            big, sl = _strided(base, 0); bm, _ = _strided(mk, True)
+            return dadi.Spectrum(big, mask=bm, **kw)[sl]
+        return dadi.Spectrum(base, mask=mk, **kw)
+    if fam == 'ma':
+        if kind == 'ma_of_spectrum':
+            return dadi.Spectrum(base, mask=mk, mask_corners=False).view(np.ma.MaskedArray)
+        if kind == 'ma_nomask':
+            return np.ma.masked_array(base)                # mask is numpy.ma.nomask: nothing is masked
+        if kind == 'ma_hard':
+            return np.ma.masked_array(base, mask=mk, hard_mask=True)
+        if layout == 'F':
+            return np.ma.masked_array(np.asfortranarray(base), mask=np.asfortranarray(mk))
+        if layout == 'view':
+            big, sl = _strided(base, 0); bm, _ = _strided(mk, True)
+            return np.ma.masked_array(big, mask=bm)[sl]
+        return np.ma.masked_array(base, mask=mk)
+    if fam == 'ndarray':
+        if layout == 'F':
+            return np.asfortranarray(base)
+        if layout == 'view':
+            big, sl = _strided(base, 0)
+            return big[sl]
+        return base
+    if fam == 'list':
+        return base.tolist()
+    raise ValueError('unknown container ' + kind)
+
+def _snapshot(x):
+    if isinstance(x, list):
+        return ('list', json.dumps(x))
+    return (type(x).__name__, np.array(np.ma.getdata(x), copy=True), np.array(np.ma.getmaskarray(x), copy=True),
+            getattr(x, 'folded', None), str(np.ma.getdata(x).dtype))
+
+def _unchanged(snap, x):
+    if snap[0] == 'list':
+        return isinstance(x, list) and json.dumps(x) == snap[1]
+    return bool(type(x).__name__ == snap[0] and np.array_equal(snap[1], np.ma.getdata(x), equal_nan=True)
+                and np.array_equal(snap[2], np.ma.getmaskarray(x)) and getattr(x, 'folded', None) == snap[3]
+                and str(np.ma.getdata(x).dtype) == snap[4])
+
+def eval_calls(model, data, cut, scan, rescale, m_folded_in):
+    """every entry point C11 covers on one (model, data) pair; every call guarded"""
+    rec = {}
+    snaps = (_snapshot(model), _snapshot(data))
+    guarded(rec, 'll', lambda: scalar_out(Inference.ll(model, data)))
+    guarded(rec, 'llpb', lambda: arr_out(Inference.ll_per_bin(model, data)))
+    guarded(rec, 'scal', lambda: scalar_out(Inference.optimal_sfs_scaling(model, data)))
+    guarded(rec, 'llm', lambda: scalar_out(Inference.ll_multinom(model, data)))
+    guarded(rec, 'llmpb', lambda: arr_out(Inference.ll_multinom_per_bin(model, data)))
+    def oss():
+        r = Inference.optimally_scaled_sfs(model, data)
+        return arr_out(r) + (bool(getattr(r, 'folded', m_folded_in)),)
+    guarded(rec, 'oss', oss)
+    guarded(rec, 'lin', lambda: arr_out(Inference.linear_Poisson_residual(model, data, mask=cut)))
+    guarded(rec, 'ans', lambda: arr_out(Inference.Anscombe_Poisson_residual(model, data, mask=cut)))
+    guarded(rec, 'lin_nocut', lambda: arr_out(Inference.linear_Poisson_residual(model, data)))
+    guarded(rec, 'ans_nocut', lambda: arr_out(Inference.Anscombe_Poisson_residual(model, data)))
+    guarded(rec, 'minus_ll', lambda: scalar_out(Inference.minus_ll(model, data)))
+    guarded(rec, 'minus_llm', lambda: scalar_out(Inference.minus_ll_multinom(model, data)))
+    rec['inputs_unchanged'] = _unchanged(snaps[0], model) and _unchanged(snaps[1], data)
+    if isinstance(rec.get('scal'), float) and not isinstance(model, list):
+        s0 = rec['scal']
+        guarded(rec, 'scan', lambda: [[x, scalar_out(Inference.ll(float(x * s0) * model, data))] for x in scan])
+    if not isinstance(model, list):
+        guarded(rec, 'rescaled', lambda: [[k, scalar_out(Inference.ll_multinom(k * model, data)),
+                                           scalar_out(Inference.optimal_sfs_scaling(k * model, data))] for k in rescale])
+    return rec
+
+def reference_record(c, drop_m, drop_d):
+    """the canonical call: float64 C-ordered dadi.Spectrum objects (mask all False on a side whose container has no mask)"""
+    shape = c['shape']; n = len(c['m_vals'])
+    mm = [False] * n if drop_m else c['m_mask']
+    dm = [False] * n if drop_d else c['d_mask']
+    model = mk_spectrum(c['m_vals'], mm, shape, c['m_folded'])
+    data = mk_spectrum(c['d_vals'], dm, shape, c['d_folded'])
+    rec = {'d_vals': [float(x) for x in np.asarray(data.data).ravel()], 'd_mask': [bool(x) for x in dm],
+           'm_vals': [float(x) for x in np.asarray(model.data).ravel()], 'm_mask': [bool(x) for x in mm],
+           'd_folded': bool(data.folded), 'm_folded': bool(model.folded)}
+    rec.update(eval_calls(model, data, c.get('cut'), c.get('scan', []), c.get('rescale', []), bool(model.folded)))
+    if data.folded and not model.folded:
+        guarded(rec, 'm_used', lambda: arr_out(model.fold()))
+    return rec
+
+def run_variants(c, rec):
+    refs = {}
+    out = []
+    for v in c['variants']:
+        vr = {'vid': v['vid']}
+        try:
+            key = ('m' if v.get('drop_m') else '') + ('d' if v.get('drop_d') else '') or 'base'
+            if key not in refs:
+                refs[key] = reference_record(c, bool(v.get('drop_m')), bool(v.get('drop_d')))
+            vr['ref'] = key
+            model = build_container(v['mc'], c['m_vals'], c['m_mask'], v.get('hm'), c['shape'], c['m_folded'])
+            data = build_container(v['dc'], c['d_vals'], c['d_mask'], v.get('hd'), c['shape'], c['d_folded'])
+            vr['types'] = [type(model).__name__ + ':' + str(getattr(np.ma.getdata(model), 'dtype', '')) if not isinstance(model, list) else 'list',
+                           type(data).__name__ + ':' + str(getattr(np.ma.getdata(data), 'dtype', '')) if not isinstance(data, list) else 'list']
+            vr.update(eval_calls(model, data, c.get('cut'), c.get('scan', []), c.get('rescale', []), bool(c['m_folded'])))
+        except Exception as e:
+            vr['error'] = type(e).__name__ + ': ' + str(e)[:300]
+        out.append(vr)
+    rec['refs'] = refs
+    rec['variants'] = out
 
 def main():
     cases = json.load(sys.stdin)
@@ -115,6 +261,8 @@ def main():
                         res['alts'].append(scalar_out(Inference.ll_multinom(alt, data)))
                     return res
                 guarded(rec, 'perturb', pert)
+            if c.get('variants'):
+                run_variants(c, rec)
         except Exception as e:
             rec['error'] = type(e).__name__ + ': ' + str(e)[:300]
         out.append(rec)
